@@ -8,10 +8,11 @@ if [ -n "$(git -C /repo status --porcelain)" ]; then echo "/repo not clean"; exi
 if ! git -C /repo apply "$P" 2>/dev/null; then
   git -C /repo apply --3way "$P" >/dev/null 2>&1 || { echo "TRY $P patch-does-not-apply"; git -C /repo checkout -- . ; git -C /repo reset -q --hard HEAD; exit 2; }
 fi
-before=$(ls replays 2>/dev/null | sort)
-out=$(bin/simcheck run $PROP --no-evidence "$@" 2>&1); code=$?
+R=${VERIF_DIR:-/verif}/replays
+before=$(ls $R 2>/dev/null | sort)
+out=$(${VERIF_DIR:-/verif}/bin/simcheck run $PROP --no-evidence "$@" 2>&1); code=$?
 git -C /repo checkout -- . ; git -C /repo reset -q --hard HEAD
 mkdir -p /tmp/try-replays
-for f in $(ls replays | sort); do echo "$before" | grep -qx "$f" || mv "replays/$f" /tmp/try-replays/; done
+for f in $(ls $R | sort); do echo "$before" | grep -qx "$f" || mv "$R/$f" /tmp/try-replays/; done
 echo "$out" | grep -E "^(VIOLATION|KNOWN-FINDING|violation class|simcheck: (C|harness|no))" | head -8
 echo "TRY $P prop=$PROP exit=$code"
